@@ -32,6 +32,8 @@ def constructs(tag):
         [],
         [".. admonition:: Tip", "   :class: hint", "", f"   body of the tip {tag}"],      # nested directives with options
         [".. figure:: logo.png", "   :alt: a logo", "   :width: 10", "", f"   caption {tag}"],
+        [f"Lead-in {tag}.", "", ".. image:: preview.png", "   :width: 200"],       # the text ends with a directive's option line
+        [f"Lead-in {tag}.", "", ".. code:: cmake", "   :number-lines:", "", "   set(X 1)", "", "..", "   :not-a-field: an indented comment"],
     ]
 
 
@@ -301,7 +303,93 @@ def check_cli(job):
     return {"viol": msgs[:4], "obs": common.digest([job, msgs]), "nt": common.digest(job), "cls": msgs[0].split(":")[0] + " cli" if msgs else None}
 
 
+STDOUT_MODULES = {
+    "twins": [{"k": "if", "doc": 0}, {"k": "function", "doc": 1, "name": "twin_fn", "params": ["a"]}, {"k": "close"},
+              {"k": "generic", "doc": 0, "cmd": "else", "args": []}, {"k": "function", "doc": 1, "name": "twin_fn", "params": ["a"]}],
+    "overloads": [{"k": "cpp_class", "doc": 1}, {"k": "cpp_member", "doc": 1, "name": "resize", "types": ["int"], "params": ["w"]},
+                  {"k": "close"}, {"k": "cpp_member", "doc": 0, "name": "resize", "types": ["int", "int"], "params": ["w", "h"]}],
+    "same_option_twice": [{"k": "option", "doc": 1, "name": "WITH_X"}, {"k": "option", "doc": 0, "name": "WITH_X"},
+                          {"k": "set", "doc": 1, "name": "WITH_X", "values": ["ON"]}],
+    "plain": [{"k": "function", "doc": 1, "params": ["a"]}, {"k": "close"}, {"k": "macro", "doc": 0, "params": []}],
+}
+
+
+def check_stdout(spec):
+    """the document printed on standard output (no -o, shipped configuration) for modules that trigger no diagnostics:
+    it starts with the title, then the module directive"""
+    from docutils import nodes
+    from .. import fsbox
+    name = spec[1]
+    box = fsbox.Box("c07s")
+    msgs = []
+    try:
+        box.build({"in/m.cmake": cmakegen.text_of(STDOUT_MODULES[name])})
+        r = box.run([box.path("work", "in", "m.cmake")])
+        if r["status"] != 0:
+            msgs.append(f"error: run failed: {r['exc'] or r['stdout'][-200:]}")
+        else:
+            doctree, sysmsgs = rstobs.docutils_parse(r["stdout"])
+            top = [c for c in doctree.children if not isinstance(c, nodes.system_message)]
+            kids = [c for c in top[0].children if not isinstance(c, nodes.system_message)] \
+                if len(top) == 1 and isinstance(top[0], nodes.section) else top
+            stubs = [k.get("stub") for k in kids[1:] if isinstance(k, nodes.container)]
+            if not kids or not isinstance(kids[0], nodes.title) or stubs[:1] != ["module"] or len(stubs) != len(kids) - 1:
+                msgs.append(f"structure: the document printed for module '{name}' does not consist of title, module directive, entries: "
+                            f"{[type(k).__name__ for k in kids[:3]]} first text {r['stdout'].strip()[:80]!r}")
+    finally:
+        box.cleanup()
+    msgs = [m.replace(box.root, "<box>") for m in msgs]
+    return {"viol": msgs, "obs": common.digest([name, msgs]), "nt": common.digest(spec), "cls": (msgs[0].split(":")[0] + " stdout") if msgs else None}
+
+
+def check_followers(spec):
+    """a member/test whose implementing definition carries a doccomment of its own, followed (later, outside) by other
+    definitions: each follower keeps its own top-level entry with its own note, the member keeps its own signature.
+    (What the documented implementing definition itself is rendered as is not judged here.)"""
+    from docutils import nodes
+    _, decl, follower, fdoc, gap = spec
+    if decl == "member":
+        head = [{"k": "cpp_class", "doc": 1}, {"k": "cpp_member", "doc": 1, "impldoc": ["Doc on the definition."], "types": ["int"], "params": ["a"]},
+                {"k": "close"}, {"k": "close"}]
+    else:
+        head = [{"k": "ct_add_test", "doc": 1, "impldoc": ["Doc on the definition."]}, {"k": "close"}]
+    mid = [{"k": "set", "doc": 1}, {"k": "option", "doc": 0}] if gap else []
+    tail = [{"k": follower, "doc": fdoc, "name": "follower_def", "params": ["level", "message"]}, {"k": "close"},
+            {"k": "function", "doc": 1, "name": "last_fn", "params": ["z"]}]
+    events = cmakegen.close(head + mid + tail)
+    r = pipeline.document_text(cmakegen.text_of(events))
+    msgs = []
+    if r["page"] is None:
+        msgs.append(f"error: pipeline failed: {r['error']}")
+    else:
+        doctree, sysmsgs = rstobs.docutils_parse(r["page"])
+        if [m for m in sysmsgs if m[0] >= 3]:
+            msgs.append("docutils: error-level message")
+        stubs = [c for c in doctree.traverse(nodes.container) if c.get("stub")]
+        top = [c for c in stubs if _parent_stub(c) is None]
+        fol = [c for c in top if c["arg"].split("(")[0].strip() == "follower_def"]
+        if len(fol) != 1:
+            msgs.append(f"structure: the {follower} defined after a {decl} with a documented implementing definition has {len(fol)} "
+                        f"top-level entries: {[c['arg'] for c in top]}")
+        else:
+            if fol[0]["arg"].replace(" ", "") not in ("follower_def(levelmessage)",):
+                msgs.append(f"structure: follower entry reads {fol[0]['arg']!r}")
+            if bool(own_nodes(fol[0], nodes.note)) != (follower == "macro"):
+                msgs.append(f"nesting: the follower {follower}'s note is {'missing from' if follower == 'macro' else 'unexpectedly in'} its directive")
+        if decl == "member":
+            mem = [c for c in stubs if c["stub"] == "py:method"]
+            if len(mem) != 1 or mem[0]["arg"].replace(" ", "") != "run_1(a)" or own_nodes(mem[0], nodes.note):
+                msgs.append(f"nesting: the member's entry is {[c['arg'] for c in mem]} (note inside: {bool(mem and own_nodes(mem[0], nodes.note))}), expected run_1(a) without a macro note")
+        if not any(c["arg"].startswith("last_fn(") for c in top):
+            msgs.append("structure: the last function lost its top-level entry")
+    return {"viol": msgs, "obs": common.digest(r["page"] or ""), "nt": common.digest(spec), "cls": (msgs[0].split(":")[0] + " followers") if msgs else None}
+
+
 def check(spec):
+    if spec and spec[0] == "<followers>":
+        return check_followers(spec)
+    if spec and spec[0] == "<stdout>":
+        return check_stdout(spec)
     if spec and spec[0] == "<cli>":
         return check_cli(spec)
     leader, case, inline = True, "lower", False
@@ -364,6 +452,12 @@ def run(ctx):
             for s_ in range(max(ns, 1)):
                 for seq in ([0], [6], [2, 5]):
                     jobs.append([(cs, {}), (c, {str(s_): seq} if ns else {})])
+    jobs += [["<stdout>", nm] for nm in STDOUT_MODULES]
+    for decl in ("member", "test"):
+        for follower in ("macro", "function"):
+            for fdoc in (0, 1):
+                for gap in (0, 1):
+                    jobs.append(["<followers>", decl, follower, fdoc, gap])
     # documents as the command line writes them: every subset of two module names out of a tree with colliding names
     for rec in (True, False):
         jobs.append(["<cli>", CLI_TREE, rec])
@@ -378,6 +472,10 @@ def run(ctx):
 
 
 def replay(case):
+    if case and case[0] == "<stdout>":
+        return check_stdout(case)["viol"]
+    if case and case[0] == "<followers>":
+        return check_followers(case)["viol"]
     if case and case[0] == "<cli>":
         return check_cli(case)["viol"]
     return check([tuple(x) for x in case])["viol"]   # a leading ("<leaderless>", {}) / ("<upper>", {}) element selects the style
